@@ -598,6 +598,20 @@ impl LuaModuleIndex {
 
 impl LuaIndex for LuaModuleIndex {
     fn remove(&mut self, file_id: FileId) {
+        // Drop the file from the fuzzy-search name map first: the tree pruning below returns
+        // early in several cases, which used to leave stale ids behind.
+        if let Some(module_name) = self
+            .file_module_map
+            .get(&file_id)
+            .map(|module_info| module_info.name.clone())
+            && let Some(file_ids) = self.module_name_to_file_ids.get_mut(&module_name)
+        {
+            file_ids.retain(|id| *id != file_id);
+            if file_ids.is_empty() {
+                self.module_name_to_file_ids.remove(&module_name);
+            }
+        }
+
         let (mut parent_id, mut child_id) =
             if let Some(module_info) = self.file_module_map.remove(&file_id) {
                 let module_id = module_info.module_id;
@@ -641,28 +655,6 @@ impl LuaIndex for LuaModuleIndex {
                 self.module_nodes.remove(&id);
             } else {
                 break;
-            }
-        }
-
-        if !self.module_name_to_file_ids.is_empty() {
-            let mut module_name = String::new();
-            for (name, file_ids) in &self.module_name_to_file_ids {
-                if file_ids.contains(&file_id) {
-                    module_name = name.clone();
-                    break;
-                }
-            }
-
-            if !module_name.is_empty() {
-                let file_ids = match self.module_name_to_file_ids.get_mut(&module_name) {
-                    Some(ids) => ids,
-                    None => return,
-                };
-
-                file_ids.retain(|id| *id != file_id);
-                if file_ids.is_empty() {
-                    self.module_name_to_file_ids.remove(&module_name);
-                }
             }
         }
     }
